@@ -50,7 +50,10 @@ def roundtrip_oracle(wt, scratch):
     kept = B.canon_triangle(tri)
     if not B.wt_equal(kept, wt, ordered=True):
         return None  # the generator's triangle is not a fixpoint of Triangle(...): not a codec matter
-    plain = B.impl_write(tri, scratch, compress=False)
+    w = B.safe_write(tri, scratch, compress=False)
+    if w[0] != "ok":
+        return (f"to_binary raised {w[1]} on a valid triangle", {"flavour": "trib"})
+    plain = w[1]
     for explicit in (False, True):
         r = B.impl_read(plain, scratch, compress=False, explicit=explicit)
         if r[0] != "ok":
@@ -58,7 +61,10 @@ def roundtrip_oracle(wt, scratch):
         if not B.wt_equal(r[1], wt):
             return ("uncompressed round trip changed the triangle: " + B.first_diff(r[1], wt),
                     {"flavour": "trib", "explicit": explicit})
-    comp = B.impl_write(tri, scratch, compress=True)
+    w = B.safe_write(tri, scratch, compress=True)
+    if w[0] != "ok":
+        return (f"to_binary(compress=True) raised {w[1]} on a valid triangle", {"flavour": "tribc"})
+    comp = w[1]
     try:
         if gzip.decompress(comp) != plain:
             return ("the .tribc file does not decompress to the .trib bytes", {"flavour": "tribc"})
@@ -147,6 +153,8 @@ def run(ctx):
                 n_fail += 1
                 if n_fail <= 3:
                     report_rt_failure(ctx, wt, bad[0], bad[1], scratch)
+            if bad is not None:
+                continue
             tri = B.mk_triangle(wt)
             b = B.impl_write(tri, scratch)
             rb = B.impl_read(b, scratch)
@@ -179,6 +187,18 @@ def run(ctx):
                 tri = B.mk_triangle(wt)
                 b = B.impl_write(tri, scratch)
                 records.append((wt, b, B.impl_read(b, scratch), []))
+
+        # ---- path reuse through the public Triangle.from_binary: a load must reflect the disk
+        n_pairs = 4 if ctx.quick else 20
+        for k in range(n_pairs):
+            pa, pb = B.gen_reuse_pair(rng)
+            for compress in (False, True):
+                cuts = sorted(set([0, 4, 5, 7] + [rng.randrange(400) for _ in range(25)]))
+                bad = B.path_reuse_oracle(pa, pb, scratch, compress=compress, cuts=cuts)
+                ctx.hist("path_reuse")
+                ctx.count(evaluations=len(cuts) + 3, traces=1)
+                if bad is not None and k < 2:
+                    ctx.violation("impl-violation", bad[0], {"pair": [pa, pb], **bad[1]}, found_input=True)
 
         # ---- F9 probes (known finding): directed triangles with >= 137 distinct keys
         for nk in (137, 400):
@@ -341,6 +361,9 @@ def B_parse(out):
 def replay(ctx, data):
     scratch = B.Scratch(ctx.build)
     try:
+        if "pair" in data:
+            print(f"replaying a path-reuse sequence on {REPO}")
+            return B.replay_reuse(data, scratch)
         if "sequence" in data:
             sq = data["sequence"]
             print(f"replaying a write sequence of {len(sq)} triangles on {REPO} (order {data.get('order')}, "
